@@ -196,6 +196,60 @@ Proof.
     rewrite IH by assumption. reflexivity.
 Qed.
 
+(* ---- rangeChunks ------------------------------------------------------------- *)
+
+Lemma depth_ok_app (a : list trange) : forall k b,
+  depth_ok k (a ++ b) = depth_ok k a && depth_ok (k + N.of_nat (length a)) b.
+Proof.
+  induction a as [|[[f l] vals] a IH]; intros k b.
+  - cbn [app depth_ok length]. replace (k + N.of_nat 0) with k by lia. reflexivity.
+  - cbn [app depth_ok length]. rewrite IH. rewrite andb_assoc.
+    replace (k + 1 + N.of_nat (length a)) with (k + N.of_nat (S (length a))) by lia. reflexivity.
+Qed.
+
+(* no value list is longer than 497: the first entry of a block needs 3 + m <= 500 operands *)
+Definition lists_ok (xs : list trange) : Prop := Forall (fun r : trange => (length (snd r) <= 497)%nat) xs.
+
+Lemma rchunks_spec (x : list trange) : forall cur,
+  (length cur <= 100)%nat -> depth_ok 0 cur = true -> lists_ok x ->
+  concat (rchunks cur x) = cur ++ x /\
+  Forall (fun c => (1 <= length c <= 100)%nat /\ depth_ok 0 c = true) (rchunks cur x).
+Proof.
+  induction x as [|r x IH]; intros cur Hlen Hd Hl.
+  - cbn [rchunks]. destruct cur as [|c0 cur'].
+    + split; [reflexivity|constructor].
+    + split; [cbn [concat]; rewrite !app_nil_r; reflexivity|].
+      constructor; [|constructor]. cbn [length] in *. split; [lia|assumption].
+  - inversion Hl as [|? ? Hr Hl']; subst. cbn [rchunks].
+    assert (Hone : depth_ok 0 [r] = true).
+    { destruct r as [[f l] vals]. cbn [snd] in Hr. cbn [depth_ok]. rewrite andb_true_r.
+      destruct vals as [|v [|v2 vals]]; [|reflexivity|]; unfold max_operands; cbn [length] in *; lia. }
+    destruct ((0 <? length cur)%nat && ((length cur =? chunk_size)%nat || (max_need <? range_need (length cur) r))) eqn:E.
+    + apply andb_true_iff in E as [E1 _]. apply Nat.ltb_lt in E1.
+      destruct (IH [r]) as [C1 C2]; [cbn; lia|assumption|assumption|].
+      split.
+      * cbn [concat]. rewrite C1. reflexivity.
+      * constructor; [split; [lia|assumption]|assumption].
+    + destruct (IH (cur ++ [r])) as [C1 C2]; [| |assumption|].
+      * rewrite app_length. cbn [length]. apply andb_false_iff in E as [E|E].
+        -- apply Nat.ltb_ge in E. lia.
+        -- apply orb_false_iff in E as [E _]. apply Nat.eqb_neq in E. rewrite chunk_size_eq in E. lia.
+      * rewrite depth_ok_app, Hd. cbn [andb]. rewrite N.add_0_l.
+        apply andb_false_iff in E as [E|E].
+        -- apply Nat.ltb_ge in E. assert (length cur = 0%nat) by lia. destruct cur; [exact Hone|discriminate].
+        -- apply orb_false_iff in E as [_ E]. apply N.ltb_ge in E.
+           destruct r as [[f l] vals]. unfold range_need, max_need in E. cbn [snd] in E.
+           cbn [depth_ok]. rewrite andb_true_r.
+           destruct vals as [|v [|v2 vals]]; [|reflexivity|]; unfold max_operands; cbn [length] in *; lia.
+      * split; [rewrite C1, <- app_assoc; reflexivity|assumption].
+Qed.
+
+Lemma range_chunks_spec (x : list trange) :
+  lists_ok x ->
+  concat (range_chunks x) = x /\
+  Forall (fun c => (1 <= length c <= 100)%nat /\ depth_ok 0 c = true) (range_chunks x).
+Proof. intros H. apply (rchunks_spec x []); [cbn; lia|reflexivity|assumption]. Qed.
+
 (* ---- blocks ---------------------------------------------------------------- *)
 
 Lemma block_count_ok n : (n <= 100)%nat -> block_count (Z.of_nat n) = Some n.
